@@ -153,6 +153,11 @@ def run(run):
                 else:
                     nvt = torch.full((len(soft_pts), 1), float(nv))
                     arg = float(nv)
+                    # integer-valued variances in the forms a caller may write them: a Python int, an integer tensor, a float64 tensor
+                    if float(nv) == 1.0:
+                        arg = 1
+                    elif float(nv) == 100.0:
+                        arg = torch.tensor(100) if s.b % 2 == 0 else torch.tensor(100.0, dtype=torch.float64)
                 if hasattr(d, "reset_state"):
                     d.reset_state()
                 try:
